@@ -190,7 +190,7 @@ theorem C01_char (m : Mod) :
 
 /-- a serde break across a PLAIN edge is never attributed to a known class -/
 theorem plain_serde_break_unlisted (m : Mod) (it t : Name) (ser : Bool) :
-    classOf m (.serde it t ser false false) = none := rfl
+    classOf m (.serde it t ser false false false) = none := rfl
 
 /-- an undefined name that is not a component schema of the spec is never attributed to a known class -/
 theorem foreign_undefined_unlisted (m : Mod) (n : Name) (h : m.schemas.contains n = false) :
@@ -230,6 +230,16 @@ def mArrEdge : Mod :=
     imports := [], mentions := [] }
 
 theorem cex_digest_nested_array_edge : judgeWF mArrEdge = ⟨false, ["KnownSerdeNestedArrayEdge"]⟩ := by decide
+
+def mRespWrap : Mod :=
+  { mode := "client-mod".toList, schemas := ["Item".toList],
+    items := [{ file := "types".toList, kind := "enum".toList, name := "GetAResponse".toList, vis := "pub".toList, respEnum := true,
+                fields := [{ name := [], refs := [{ to := "Item".toList, map := false, vec := false, wrap := true }] }] },
+              { file := "types".toList, kind := "struct".toList, name := "Item".toList, vis := "pub".toList, ser := true }],
+    imports := [], mentions := [] }
+
+/-- KnownResponseWrapperPayload: the payload `Option<Item>` of a response variant, `Item` being Serialize-only (client) -/
+theorem cex_digest_response_wrapper : judgeWF mRespWrap = ⟨false, ["KnownResponseWrapperPayload"]⟩ := by decide
 
 def mHeader : Mod :=
   { mode := "types".toList, schemas := [],
